@@ -281,7 +281,7 @@ def fault_cases(draw, max_faults=2):
     n = draw(st.integers(0, max_faults))
     faults = []
     for _ in range(n):
-        k = draw(st.sampled_from(FAULT_KINDS))
+        k = draw(st.sampled_from(FAULT_KINDS + ["drop_row", "drop_row", "dup_row", "dup_row", "relabel", "blank"]))
         faults.append({"kind": k, "pos": draw(st.integers(0, 40)), "pos2": draw(st.integers(0, 40)), "dim": draw(st.integers(0, 5)), "other_value": draw(st.booleans())})
     return {
         "universe": U,
@@ -300,7 +300,7 @@ class Faults(Facet):
     shards = {"quick": 16, "thorough": 16}
 
     def strategy(self, tier):
-        return fault_cases(max_faults=2 if tier == "quick" else 3)
+        return fault_cases(max_faults=4)
 
     def run(self, desc):
         return run_fault_case(desc)
@@ -352,6 +352,35 @@ class Single(Facet):
                         for ae in (False, True):
                             for entry in ("from_df", "set_values_from_df"):
                                 yield {"universe": U, "letters": letters, "layout": lay, "faults": [f], "allow_missing": am, "allow_extra": ae, "entry": entry}
+
+    def run(self, desc):
+        return run_fault_case(desc)
+
+
+class Combos(Facet):
+    """All ordered pairs and triples of row-level faults (drop / duplicate / relabel / blank) at three positions
+    each on one long frame, x 4 flag combinations (exhaustive): combined faults must not mask each other."""
+
+    name = "combos"
+    exhaustive = True
+    shards = {"quick": 16, "thorough": 16}
+
+    def enumerate(self, tier):
+        import itertools as it
+
+        letters = ["a", "b"]
+        lens, kinds = ([3, 3], ["int", "str"]) if tier == "quick" else ([4, 3], ["int", "str"])
+        U = {"dims": [{"letter": l, "name": gen.NAMES[l], "items": gen.items_for(l, k, n, kd), "dtype": gen.kind_dtype(kd)} for k, (l, n, kd) in enumerate(zip(letters, lens, kinds))]}
+        lay = {"wide": None, "index": [], "header": {"a": "name", "b": "letter"}, "value_col": "value"}
+        kinds_ = ["drop_row", "dup_row", "relabel", "blank"]
+        positions = [0, 4, 7]
+        for r in (2, 3):
+            for ks in it.product(kinds_, repeat=r):
+                for ps in it.product(positions, repeat=r) if r == 2 else [(0, 0, 0), (0, 4, 7), (7, 4, 0), (4, 4, 4), (1, 5, 2)]:
+                    faults = [{"kind": k, "pos": p, "pos2": p + 1, "dim": i, "other_value": bool(i % 2)} for i, (k, p) in enumerate(zip(ks, ps))]
+                    for am in (False, True):
+                        for ae in (False, True):
+                            yield {"universe": U, "letters": letters, "layout": lay, "faults": faults, "allow_missing": am, "allow_extra": ae, "entry": "from_df" if (am + ae) % 2 else "set_values_from_df"}
 
     def run(self, desc):
         return run_fault_case(desc)
@@ -458,11 +487,12 @@ Prop(
     "type, blank a value, drop a dimension column, add junk value columns, relabel or drop a column of a wide frame. faults: 0-2 "
     "(thorough 3) generated faults x 4 flag combinations x entry points from_df / set_values_from_df (prior content must "
     "survive a failure) / CSVParameterReader / ExcelParameterReader (real files). single: every single fault at EVERY position "
-    "of 2 (thorough 5) frames x 2-4 layouts x 4 flag combinations x 2 entry points (exhaustive). Oracle: contract model "
+    "of 2 (thorough 5) frames x 2-4 layouts x 4 flag combinations x 2 entry points (exhaustive). combos: all ordered pairs and triples of "
+    "row-level faults at several positions x 4 flag combinations on one frame (exhaustive). Oracle: contract model "
     "(default: any fault but a dropped single-item dim column must raise; allow_missing: missing/blank -> 0 and every present "
     "entry under its labels; allow_extra: rows with unknown items ignored; duplicates always raise). Non-trivial = fault not in "
     "the first two rows, or a wide layout, or a combined fault.",
-    [Faults(), Single(), Fuzz()],
+    [Faults(), Single(), Combos(), Fuzz()],
     assumptions=[
         "thorough tier adds facet 'fuzz': an atheris (libFuzzer) campaign of 16 x 12000 executions on fuzz/df_import_fuzz.py with the same oracles inside the target; distinct non-trivial = inputs libFuzzer kept in its corpus (new coverage); -seed pins a campaign only approximately, the saved descriptor is the reproducible unit",
         "unknown items have the dimension's declared type (an unparsable item for an int dimension fails type conversion before the flags apply)",
